@@ -21,7 +21,7 @@ def pdu_bytes(rng, total):
 class Scn:
     def __init__(self, sess, rng, sid):
         self.s = sess; self.rng = rng; self.sid = sid
-        self.ev = []; self.req = {}; self.next_r = 1; self.pdus = {}; self.peer_open = True
+        self.ev = []; self.req = {}; self.next_r = 1; self.pdus = {}; self.delivered = {}; self.peer_open = True
         self.pos = {}      # r -> offset python believes the client has reached (contiguous sending)
 
     def start(self):
@@ -91,11 +91,15 @@ class Scn:
         for ln in self.s.cmd("TGET"):
             if ln.startswith("R pdu "):
                 b = bytes.fromhex(ln.split()[2]) if ln.split()[2] != "-" else b""
+                # identify the PDU by position, not only by content (two small random PDUs may be equal): per connection the PDUs can only be
+                # handed up in the order they were written, so the candidate is the first not yet delivered one whose bytes match
                 hit = [0, 0]
-                for c, lst in self.pdus.items():
-                    for i, p in enumerate(lst, 1):
-                        if p == b:
-                            hit = [c, i]
+                for c in sorted(self.pdus, reverse=True):
+                    lst = self.pdus[c]; nxt = self.delivered.get(c, 0)
+                    cand = [i for i in range(nxt, len(lst)) if lst[i] == b]
+                    if cand:
+                        hit = [c, cand[0] + 1]; self.delivered[c] = cand[0] + 1
+                        break
                 got.append(hit)
         self.ev.append(dict(e="Got", pdus=got))
         st = self.s.cmd("STATES")[-1].split()[2:]
@@ -258,6 +262,63 @@ def random_group(chk, exe, rng, nscen, steps, label, plans=None):
     return done
 
 
+def blocking_client(chk, exe, rng, tier):
+    """Framing on the BLOCKING TCP client (net_tcp.c): whatever the chunking of the server's bytes, the signing call gets exactly the first whole
+    PDU (success on an honest reply); a stream that ends inside the PDU gives an error; bytes after the PDU are not consumed into it."""
+    import ksi, wire
+    s = netsim.Session(exe); n = 0
+    good = dict(what="resp", mac="ok", hdr="ok", ver="v2", status="0", id="same", hash="same", cons="ok", body="full")
+    def exchange(parts, close_after=False, caps=None):
+        """one signing call; the reply is delivered in `parts`; returns (ok, line)"""
+        doc = ksi.imprint(1, b"c14b-%d" % rng.randrange(1 << 30))
+        out = s.cmd("SIGN %s 0" % doc.hex())
+        if not out or not out[-1].startswith("Q recv"):
+            return None, str(out[-1:])
+        raw = b"".join(bytes.fromhex(l.split("data=")[1]) for l in out if l.startswith("E send"))
+        rid = int.from_bytes(wire.request_fields(raw)["payload"].get(1, b""), "big")
+        reply = wire.sign_reply(good, random.Random(11), rid, doc, 0, None)
+        pieces = parts(reply)
+        if caps:
+            s.cmd("CHUNKS " + " ".join(str(c) for c in caps(len(reply))))
+        for i, pc in enumerate(pieces):
+            s.cmd("S2C " + pc.hex())
+            out = s.cmd("GO")
+            if not (out and out[-1].startswith("Q recv")):
+                break
+        guard = 0
+        while out and out[-1].startswith("Q recv") and guard < 5:
+            s.cmd("PEERCLOSE"); out = s.cmd("GO"); guard += 1
+        s.cmd("CHUNKS")
+        r = [l for l in out if l.startswith("R sign")]
+        return (" rc=0x0 " in r[0] + " ", r[0][:120]) if r else (None, str(out[-2:]))
+    try:
+        s.cmd("BNEW")
+        probe_len = len(wire.sign_reply(good, random.Random(11), 1, ksi.imprint(1, b"x"), 0, None))
+        step = 1 if tier == "thorough" else 9
+        fams = [("one-byte-chunks", lambda rep: [rep], False, lambda L: [1] * (L + 4)),
+                ("three-byte-chunks", lambda rep: [rep], False, lambda L: [3] * (L // 3 + 4)),
+                ("followed-by-another-pdu", lambda rep: [rep + bytes.fromhex("8221000401020304")], False, None)]
+        for name, parts, trunc, caps in fams:
+            ok, line = exchange(parts, caps=caps); n += 1
+            if ok is not True:
+                chk.violation("blocking-framing:%s" % name, "blocking TCP client: an honest reply delivered as %s is not accepted: %s" % (name, line), dict(log=s.log[-12:]))
+        for k in range(1, probe_len, step):
+            ok, line = exchange(lambda rep, k=k: [rep[:k], rep[k:]]); n += 1
+            if ok is not True:
+                chk.violation("blocking-framing:split", "blocking TCP client: an honest reply split after %d of %d bytes is not accepted: %s" % (k, probe_len, line), dict(log=s.log[-12:]))
+            ok, line = exchange(lambda rep, k=k: [rep[:k]]); n += 1          # the stream ends inside the PDU
+            if ok is not False:
+                chk.violation("blocking-framing:truncated-accepted" if ok else "blocking-framing:truncated-no-result", "blocking TCP client: a reply cut after %d of %d bytes followed by the peer closing gave %s" % (k, probe_len, line), dict(log=s.log[-12:]))
+    except netsim.Died as e:
+        chk.violation("crash:tcp-blocking", "libksi crashed in the blocking TCP client\n%s" % str(e)[-2500:], dict(log=s.log[-30:])); s = None
+    if s is not None:
+        rc, err = s.close()
+        if rc != 0:
+            chk.violation("crash:tcp-blocking:exit", "driver exited rc=%s\n%s" % (rc, err[-2000:]), {})
+    chk.add(blocking_client_exchanges=n)
+    return n
+
+
 def run(chk, tier, seed):
     exe = netsim.build()
     rng = random.Random(seed)
@@ -268,6 +329,7 @@ def run(chk, tier, seed):
     nscen, steps = (60, 60) if tier == "quick" else (600, 90)
     total = 0
     Ls = [6] if tier == "quick" else [2, 3, 6, 9, 300]
+    total += blocking_client(chk, exe, rng, tier)
     plans = [(L, K, f, sec) for L in Ls for K in sorted({1, 2, L // 2, L - 1} - {0, L}) for f in ("closed", "reset", "hup", "err", "epipe") for sec in (0, 3)]
     total += random_group(chk, exe, rng, 0, 0, "directed", plans=plans)
     for g in range(2 if tier == "quick" else 6):
@@ -277,7 +339,7 @@ def run(chk, tier, seed):
                  "(1-byte chunks, would-block, buffer-full), partial sends / would-block / EPIPE, peer close and reset at arbitrary offsets, poll outcomes; "
                  "each scenario is one trace (every system call logged) validated by TLC; plus the directed family: a request cut by a would-block after K bytes "
                  "x connection ended by peer close / reset / poll hup / poll err / EPIPE x with or without a second queued request")
-    chk.assumptions += ["the blocking TCP client (net_tcp.c) and fast_tlv socket reader are exercised by C07/C09, not here",
+    chk.assumptions += ["the blocking TCP client (net_tcp.c) is exercised for framing only (every split / truncation offset of an honest signing reply, 1- and 3-byte chunks, trailing PDU); its reply validation is C07's",
                         "timeouts and the per-round request limit are C13's business (disabled here)"]
 
 
